@@ -4,6 +4,7 @@
            R <bytes> <io> <ret,indx,end,len>
            S <position> <io> <indx,end,len>      header_seek SEEK_SET
            C <position> <io> <indx,end,len>      header_seek SEEK_CUR
+           P <position> <io> <indx,end,len,read calls,bytes requested>   header_seek SEEK_CUR with is_pipe set
    io = bytes the I/O layer transferred during the operation.   usage: kern_hcache <seed> <histories> */
 #include <stdio.h>
 #include <stdlib.h>
@@ -11,11 +12,11 @@
 #include "common.c"
 #include "prng.h"
 
-static sf_count_t io_total, file_pos ; static int io_mode ;
+static sf_count_t io_total, file_pos, io_calls, io_req ; static int io_mode ;
 static sf_count_t v_len (void *u) { (void) u ; return 1 << 20 ; }
 static sf_count_t v_seek (sf_count_t o, int w, void *u) { (void) u ; if (w == SEEK_SET) file_pos = o ; else if (w == SEEK_CUR) file_pos += o ; return file_pos ; }
 static sf_count_t v_read (void *p, sf_count_t n, void *u)
-{	(void) u ; sf_count_t k = n ;
+{	(void) u ; sf_count_t k = n ; io_calls ++ ; io_req += n ;
 	if (io_mode == 1) k = 0 ; else if (io_mode == 2) k = n / 2 ; else if (io_mode == 3 && n > 0) k = (sf_count_t) (rnd64 () % (uint64_t) (n + 1)) ;
 	memset (p, 0x5A, k) ; io_total += k ; file_pos += k ; return k ;
 }
@@ -33,8 +34,8 @@ int main (int argc, char **argv)
 		unsigned char *dst = malloc (200000) ;
 		for (int k = 0 ; k < 40 ; k++)
 		{	io_mode = (int) (rnd64 () % 6) ; if (io_mode > 3) io_mode = 0 ;
-			io_total = 0 ;
-			int what = (int) (rnd64 () % 3) ;
+			io_total = 0 ; io_calls = 0 ; io_req = 0 ;
+			int what = (int) (rnd64 () % 4) ;
 			static const long SZ [] = { 0, 1, 2, 4, 8, 16, 100, 255, 256, 257, 4000, 20000, 51199, 51200, 51201, 70000, 102400, 150000 } ;
 			if (what == 0)
 			{	int bytes = (int) SZ [rnd64 () % 18] ;
@@ -45,6 +46,14 @@ int main (int argc, char **argv)
 			{	long pos = SZ [rnd64 () % 18] + (long) (rnd64 () % 3) ;
 				header_seek (psf, pos, SEEK_SET) ;
 				printf ("S %ld %lld %lld,%lld,%lld\n", pos, (long long) io_total, (long long) psf->header.indx, (long long) psf->header.end, (long long) psf->header.len) ;
+				}
+			else if (what == 3)
+			{	/* the same relative seek with the input marked as a pipe: jumps that cannot be cached are read and discarded */
+				long pos = (rnd64 () % 5) ? SZ [rnd64 () % 18] + (long) (rnd64 () % 3) : - (long) (rnd64 () % 5000) ;
+				psf->is_pipe = SF_TRUE ;
+				header_seek (psf, pos, SEEK_CUR) ;
+				psf->is_pipe = SF_FALSE ;
+				printf ("P %ld %lld %lld,%lld,%lld,%lld,%lld\n", pos, (long long) io_total, (long long) psf->header.indx, (long long) psf->header.end, (long long) psf->header.len, (long long) io_calls, (long long) io_req) ;
 				}
 			else
 			{	long pos = (rnd64 () % 4) ? SZ [rnd64 () % 18] : - (long) (rnd64 () % 5000) ;
